@@ -49,6 +49,7 @@ MDel(m, f)       == [Blank EXCEPT !.k = "Del", !.m = m, !.f = f]
 MRenF(m, f, g)   == [Blank EXCEPT !.k = "RenF", !.m = m, !.f = f, !.of = f, !.nf = g]
 MMetaUT(m, v)    == [Blank EXCEPT !.k = "Meta", !.m = m, !.prop = "unique_together", !.val = v]
 MMetaIdx(m, v)   == [Blank EXCEPT !.k = "Meta", !.m = m, !.prop = "indexes", !.ival = v]
+MMetaCons(m, v)  == [Blank EXCEPT !.k = "Meta", !.m = m, !.prop = "constraints", !.ival = v]
 TableOf(m)       == "t_" \o m
 MRenM(a, b)      == [Blank EXCEPT !.k = "RenM", !.m = a, !.om = a, !.nm = b, !.dbtable = TableOf(b)]
 MDelM(m)         == [Blank EXCEPT !.k = "DelM", !.m = m]
@@ -67,8 +68,13 @@ M2MField(target) == [ftype |-> "M2M", attrs |-> EmptyDict, rel |-> target, data 
 IxFG   == [fields |-> <<"f", "g">>, name |-> "ix_fg", cond |-> None]
 IxCond == [fields |-> <<"f">>, name |-> "ix_cond", cond |-> "g"]      \* condition=Q(g__gt=0)
 IxH    == [fields |-> <<"h">>, name |-> "ix_h", cond |-> None]
+(* Meta.constraints: kind "check" = CheckConstraint(check=Q(<cond>__gte=0)),
+   kind "unique" = UniqueConstraint(fields=..., condition=Q(<cond>__gt=0) if cond) *)
+CkG    == [kind |-> "check", fields |-> <<>>, name |-> "ck_g", cond |-> "g"]
+UqFG   == [kind |-> "unique", fields |-> <<"f", "g">>, name |-> "uq_fg", cond |-> None]
+UqCond == [kind |-> "unique", fields |-> <<"f">>, name |-> "uq_cond", cond |-> "g"]
 Model(name, fields, ut) == [table |-> TableOf(name), fields |-> fields,
-                            ut |-> ut, uta |-> TRUE, idx |-> <<>>]
+                            ut |-> ut, uta |-> TRUE, idx |-> <<>>, cons |-> <<>>]
 
 Start(id) ==
   CASE id = 1 ->          \* two plain models
@@ -100,6 +106,13 @@ Start(id) ==
                            g |-> Field("Int", D1("db_column", "gcol"))], << <<"f", "g">> >>),
          B |-> Model("B", [id |-> IdField,
                            f |-> Field("Char", D1("max_length", 10))], <<>>)]
+    [] id = 9 ->          \* Meta.constraints: a check, a unique and a conditional unique constraint
+        [A |-> [Model("A", [id |-> IdField,
+                            f |-> Field("Char", D1("max_length", 10)),
+                            g |-> Field("Int", EmptyDict)], <<>>)
+                  EXCEPT !.cons = <<CkG, UqFG, UqCond>>],
+         B |-> Model("B", [id |-> IdField,
+                           f |-> Field("Int", EmptyDict)], <<>>)]
     [] id = 8 ->          \* A declares a many-to-many relation to B
         [A |-> Model("A", [id |-> IdField,
                            f |-> Field("Char", D1("max_length", 10)),
@@ -181,6 +194,30 @@ Alphabet ==
                   MAdd("A", x, "Int", D1("null", TRUE), None),
                   MDel("A", x) } \cup { MRenF("A", x, y) : y \in FieldNames \ {x} }
                 : x \in FieldNames }
+    [] AlphaId = 10 ->     \* Meta.constraints next to rebuilds of the same table
+        { MAdd("A", "h", "Int", D1("null", TRUE), None),
+          MAdd("A", "h", "Char", D1("max_length", 10), "i"),
+          MChg("A", "f", None, D1("max_length", 20), None),
+          MChg("A", "g", None, D1("null", TRUE), None),
+          MChg("A", "f", None, D1("db_index", TRUE), None),
+          MDel("A", "h"),
+          MMetaCons("A", <<>>), MMetaCons("A", <<CkG>>), MMetaCons("A", <<UqCond>>),
+          MMetaCons("A", <<CkG, UqFG>>), MMetaCons("A", <<CkG, UqFG, UqCond>>),
+          \* (g, f), not (f, g): a unique_together over the very columns of uq_fg would be a
+          \* second, indistinguishable unique index
+          MMetaUT("A", << <<"g", "f">> >>), MSQL }
+    [] AlphaId = 9 ->      \* the other column types of C01's quantifier, added / re-typed / made nullable / dropped
+        { MAdd("A", "h", "BigInt", D1("null", TRUE), None),
+          MAdd("A", "h", "PosInt", EmptyDict, "i"),
+          MAdd("A", "h", "Bool", EmptyDict, "i"),
+          MAdd("A", "h", "Decimal", D2("max_digits", 6, "decimal_places", 2), "i"),
+          MAdd("A", "h", "DateTime", D1("null", TRUE), None),
+          MAdd("A", "h", "Text", EmptyDict, "i"),
+          MChg("A", "g", "BigInt", D1("null", TRUE), None),
+          MChg("A", "h", None, D1("null", TRUE), None),
+          MChg("A", "h", None, D1("db_index", TRUE), None),
+          MChg("A", "f", None, D1("max_length", 20), None),
+          MDel("A", "h"), MRenF("A", "h", "k") }
     [] AlphaId = 8 ->      \* many-to-many: the models at both ends renamed / deleted, fields added / renamed / deleted
         { MRenM("A", "C"), MRenM("B", "C"), MDelM("A"), MDelM("B"),
           MAdd("A", "h", "M2M", D1("related_model", "B"), None),
@@ -498,7 +535,8 @@ OpsOf(mu, sig) ==
            ELSE <<Op("change_column",
                      (changed \cap {"null", "max_length", "unique"}) # {},
                      "db_index" \in changed, mu.f)>>
-    [] mu.k = "Meta" -> <<Op("change_meta", FALSE, FALSE, None)>>
+    \* on SQLite a change of Meta.constraints is carried out by a table rebuild
+    [] mu.k = "Meta" -> <<Op("change_meta", mu.prop = "constraints", FALSE, None)>>
     [] mu.k \in {"RenF", "RenM", "DelM"} -> <<Op("sql", FALSE, FALSE, None)>>
     [] OTHER -> <<>>
 
@@ -513,6 +551,9 @@ M2MEnds(sig, mn) ==
 
 MutHazards(mu, sig) ==
     IF mu.k = "RenM" /\ M2MEnds(sig, mu.om) THEN {"m2m-end-renamed"}
+    \* Django gives a PositiveIntegerField column a CHECK (col >= 0); the column definitions
+    \* Django Evolution generates never carry it
+    ELSE IF mu.k = "Add" /\ mu.ftype = "PosInt" THEN {"positive-integer-check"}
     ELSE IF mu.k = "Chg"
     THEN LET old == sig[mu.m].fields[mu.f]
              typeChanged == /\ mu.ftype # None /\ old.ftype # mu.ftype
@@ -636,6 +677,10 @@ Extend(mu) ==
           \* Meta.indexes only ever names fields the model has (the simulation
           \* does not check this; SQL generation raises FieldDoesNotExist)
           /\ ((mu.k = "Meta" /\ mu.prop = "indexes")
+                => \A i \in 1..Len(mu.ival) :
+                      /\ SeqSet(mu.ival[i].fields) \subseteq DOMAIN cur[mu.m].fields
+                      /\ (mu.ival[i].cond # None => mu.ival[i].cond \in DOMAIN cur[mu.m].fields))
+          /\ ((mu.k = "Meta" /\ mu.prop = "constraints")
                 => \A i \in 1..Len(mu.ival) :
                       /\ SeqSet(mu.ival[i].fields) \subseteq DOMAIN cur[mu.m].fields
                       /\ (mu.ival[i].cond # None => mu.ival[i].cond \in DOMAIN cur[mu.m].fields))
